@@ -94,4 +94,18 @@ PROPS['C16'] = {
     'level_note': 'A-IO axioms for read/memmap; TEXT-side clauses are bounded only.',
 }
 
+PROPS['C12'] = {
+    'contracts': ['contracts.stats:' + n for n in ('Mean', 'Gmean', 'Median', 'Mode', 'Std', 'Cv', 'Gstd', 'Gcv', 'Iqr', 'Rcv')]
+                 + ['contracts.io:GetItem', 'contracts.io:NameToIndex'],
+    'bounded': True,
+    'level': 'proof',
+    'explanation': 'For each of the ten statistics and every container / channel form (symbolic N>=1, D, positions, names, list '
+                   'lengths): the reduction receives exactly the requested columns in the requested order over axis 0, single channels '
+                   'give scalars, lists give one entry per channel, and cv/gstd/gcv/iqr/rcv are the documented compositions '
+                   '(identities CV=SD/mean, RCV=IQR/median, GCV=sqrt(exp(ln(GSD)^2)-1)); samples and plain arrays yield the same terms; '
+                   'np.percentile\'s (-1, Ellipsis) probe is accepted by FCSData.__getitem__. The textbook meaning of the NumPy/SciPy '
+                   'reductions themselves is assumed (checked by the bounded stand-in against direct definitions).',
+    'level_note': 'np.mean/median/std/percentile, scipy.stats.gmean/mode assumed textbook (A-LIB); A-REAL for exp/log/sqrt.',
+}
+
 NOT_APPLICABLE = {}
